@@ -17,9 +17,10 @@ def label_of(op, path, mode=""):
     return "%s%s:%s/%s" % (op, (":" + mode) if mode else "", parent if parent in ("aux", "IsoQuant") else "", b)
 
 
-def install(k, mode, labels_path=None, watch_root=None):
-    """k: 1-based index of the mutation to crash at (0 = never); mode: 'before' | 'after'."""
-    state = {"n": 0, "armed": False, "pid": os.getpid()}
+def install(k, mode, labels_path=None, watch_root=None, armed=False):
+    """k: 1-based index of the mutation to crash at (0 = never); mode: 'before' | 'after'.
+    armed=True counts from the first mutation on (used for resumed runs, whose parameters were saved long ago)."""
+    state = {"n": 0, "armed": armed, "pid": os.getpid()}
     real_open = builtins.open
     real_remove = os.remove
     real_makedirs = os.makedirs
@@ -52,7 +53,7 @@ def install(k, mode, labels_path=None, watch_root=None):
             return real_open(file, mode, *a, **kw)
         if os.getpid() == state["pid"] and not state["armed"]:
             f = real_open(file, mode, *a, **kw)
-            if os.path.basename(str(file)) == ".params":
+            if os.path.basename(str(file)) in (".params", ".params.tmp"):     # written, then moved into place
                 state["armed"] = True
             return f
         due = tick(label_of("open", file, mode))
